@@ -39,12 +39,62 @@ def scan_function(fn: ast.AST, member_name: str, ordering_scope: bool) -> List[T
             out.append(("nan-unsafe-clamp", u(n)[:70], "builtin min / max return their FIRST argument when the comparison with NaN is False: min(1.0, nan) is 1.0 - an undefined value is replaced by the bound"))
         if isinstance(n, ast.DictComp) and isinstance(n.key, ast.Attribute) and n.key.attr in ("insertion_id", "name", "label", "anchor"):
             out.append(("non-unique-key", u(n)[:80], f"`.{n.key.attr}` is not unique within a dimension (explicit insertion ids may repeat or collide with generated ones; names and anchors repeat freely): a later entry replaces an earlier one"))
+        if isinstance(n, (ast.If, ast.IfExp)) and _extent_equality(n.test) and _has_orientation_op(fn):
+            out.append(("extent-guessed-orientation", u(n.test)[:70], "whether a vector runs along the rows or the columns is decided by comparing its LENGTH with an extent of the block: both match when the block is square (as many inserted columns as rows), and the vector is laid out the wrong way"))
         if ordering_scope:
             if isinstance(n, (ast.For, ast.comprehension)) and isinstance(n.iter, ast.Call) and u(n.iter.func) in ("set", "frozenset"):
                 out.append(("unordered", u(n.iter)[:70], "iteration order of a set is arbitrary: the order built from it is not the specified one"))
             if isinstance(n, ast.Call) and u(n.func) in ("list", "tuple", "np.array", "np.fromiter") and n.args and isinstance(n.args[0], ast.Call) and u(n.args[0].func) in ("set", "frozenset"):
                 out.append(("unordered", u(n)[:70], "a set turned into a sequence has arbitrary order"))
     return out
+
+
+def _is_extent(e: ast.AST) -> bool:
+    if isinstance(e, ast.Subscript) and isinstance(e.slice, ast.Constant) and isinstance(e.slice.value, int):
+        t = u(e.value)
+        return t.endswith(".shape") or t == "shape" or t.endswith("_shape")
+    if isinstance(e, ast.Call) and u(e.func) == "len" and len(e.args) == 1:
+        return True
+    if isinstance(e, ast.Attribute) and e.attr == "size":
+        return True
+    return False
+
+
+def _extent_equality(test: ast.AST) -> bool:
+    while isinstance(test, ast.UnaryOp) and isinstance(test.op, ast.Not):
+        test = test.operand
+    return isinstance(test, ast.Compare) and len(test.ops) == 1 and isinstance(test.ops[0], (ast.Eq, ast.NotEq)) and _is_extent(test.left) and _is_extent(test.comparators[0]) and u(test.left) != u(test.comparators[0])
+
+
+def _has_orientation_op(fn: ast.AST) -> bool:
+    for n in ast.walk(fn):
+        if isinstance(n, ast.Subscript) and isinstance(n.slice, ast.Tuple) and any((isinstance(x, ast.Constant) and x.value is None) or u(x) == "np.newaxis" for x in n.slice.elts):
+            return True
+        if isinstance(n, ast.Attribute) and n.attr == "T":
+            return True
+        if isinstance(n, ast.Call) and isinstance(n.func, ast.Attribute) and n.func.attr == "reshape" and {u(a) for a in n.args} & {"-1", "(-1, 1)", "(1, -1)"}:
+            return True
+        if isinstance(n, ast.Call) and u(n.func) in ("np.transpose", "np.atleast_2d", "np.expand_dims"):
+            return True
+    return False
+
+
+ORIENTATION_CONTROL = '''
+def _fill_block(vector, shape):
+    if vector.shape[0] == shape[1]:
+        return np.broadcast_to(vector, shape)
+    return np.broadcast_to(vector[:, None], shape)
+
+def ok(self, subtotal_rows):
+    if subtotal_rows.shape[0] == 0:
+        return subtotal_rows
+    return np.broadcast_to(self._base_values[0, :][None, :], subtotal_rows.shape)
+'''
+
+
+def orientation_self_check() -> Tuple[int, int]:
+    t = ast.parse(ORIENTATION_CONTROL)
+    return tuple(sum(1 for k, _c, _w in scan_function(f, f.name, False) if k == "extent-guessed-orientation") for f in t.body)  # type: ignore[return-value]
 
 
 CONTROL = '''
